@@ -30,6 +30,7 @@ from .TransformationQuad import transformation_quad
 from .TransformationError import TransformationError
 
 from ..Surface.ESurfaceTypeMCNP import ESurfaceTypeMCNP as MS
+from ..Surface.ConversionSurfaceMCNPToT4 import convert_special_quadric
 from ..VectUtils import (transpose, matrix_rows, scal, renorm, vdiff, vect,
                          mag2, mag, rescale)
 
@@ -395,13 +396,20 @@ def transformation(trpl, surface):
     '''
     if not trpl:
         return surface
-    if surface.type_surface in (MS.SQ, MS.GQ):
+    type_surface = surface.type_surface
+    if type_surface in (MS.SQ, MS.GQ):
         frame = tuple(surface.param_surface)
-        params = transformation_quad(surface.compl_param, trpl)
+        quad_params = surface.compl_param
+        if type_surface == MS.SQ:
+            # transformation_quad() expects the ten coefficients of the GQ
+            # form; expand the SQ parametrization first
+            _, quad_params = convert_special_quadric(surface)
+            type_surface = MS.GQ
+        params = transformation_quad(quad_params, trpl)
     else:
         frame = transform_frame(surface.param_surface, trpl)
         params = list(surface.compl_param)
-    return SurfaceMCNP(surface.boundary_cond, surface.type_surface, frame,
+    return SurfaceMCNP(surface.boundary_cond, type_surface, frame,
                        params, surface.idorigin)
 
 
